@@ -31,6 +31,9 @@ import surf_common as S
 
 LEVEL = "exploration"
 DRIVERS = S.DRIVERS
+META = {"text": "Timeline.tla predicts exactly the completion date of every activity of generated exec/comm workloads with suspend/resume, priority and bound changes and speed/bandwidth profiles (TLC runs it and checks its invariants); every workload is run under every valid combination of cpu/optim (Lazy, Full, TI where accepted), network/optim (Lazy, Full) and maxmin-selective-update, and every finish date of every configuration must equal the prediction (1e-9), hence the configurations agree. Exploration level: the workload space is sampled.",
+        "note": "Trusted: TLC, the driver. Three recorded deviations are keyed on the input class rather than on an exact variant of the reference (TI with suspend/resume/priority changes in flight, TI with a periodic speed profile whose first point is after date 0, Lazy with a priority set to its current value); everything else is strict. Out of domain: suspension of multi-threaded executions, bound changes on hosts with a speed profile, increasing bandwidth and latency profiles (recorded under C22).",
+        "technique": "TLC as exact oracle of finish dates (G) + differential runs of the real models under all update-algorithm / solver-option combinations (surf_driver)"}
 NETCFG = ["--cfg=network/model:CM02", "--cfg=network/TCP-gamma:0", "--cfg=network/crosstraffic:0"]
 G = F(1, 8)
 
@@ -173,7 +176,7 @@ def finish_vector(sc, recs):
 
 def run(ctx):
     import os
-    n = 40 if ctx.quick else 600
+    n = 40 if ctx.quick else 400
     if os.environ.get("SURF_DEV_N"):
         n = int(os.environ["SURF_DEV_N"])
     scens = [gen_scenario(ctx.rng) for _ in range(n)]
